@@ -98,12 +98,11 @@ theorem getNode_none_lookup {node : Node} {c : Name} {cs : List Name}
 
 theorem addAux_eq_addC (fuel : Nat) (node : Node) (path : Name) (apps : List Nat) (additive : Bool)
     (level : Nat) (hf : path.length < fuel) (hok : EndsOk path) (hnone : getNode node (comps path) = none) :
-    addAux fuel node path apps additive level = addC (comps path) node apps additive level ∧
-      weirdAux fuel node path = false := by
+    addAux fuel node path apps additive level = (addC (comps path) node apps additive level, false) := by
   induction fuel generalizing node path with
   | zero => omega
   | succ fuel ih =>
-    simp only [addAux, weirdAux]
+    simp only [addAux]
     rw [comps_eq] at hnone ⊢
     rw [splitFirst_eq]
     cases hfs : findSep path with
@@ -126,21 +125,81 @@ theorem addAux_eq_addC (fuel : Nat) (node : Node) (path : Name) (apps : List Nat
         | some child =>
           have hn' : getNode child (comps r) = none := by
             rw [hc]; exact getNode_none_lookup hnone child hl
-          obtain ⟨e1, e2⟩ := ih child r (by omega) hr hn'
-          simp only [addC, hl, e1, e2, hc]
+          have e1 := ih child r (by omega) hr hn'
+          simp only [addC, hl, e1, hc]
           simp [hr.1]
         | none =>
           have hn' : getNode (Node.mk node.level node.apps []) (comps r) = none :=
             getNode_leaf _ _ _ hcr
-          obtain ⟨e1, _⟩ := ih (Node.mk node.level node.apps []) r (by omega) hr hn'
+          have e1 := ih (Node.mk node.level node.apps []) r (by omega) hr hn'
           simp only [addC, hl, e1, hc]
           simp [hr.1]
 
 theorem add_eq_addC (node : Node) (path : Name) (apps : List Nat) (additive : Bool) (level : Nat)
     (hok : EndsOk path) (hnone : getNode node (comps path) = none) :
-    add node path apps additive level = addC (comps path) node apps additive level ∧ weird node path = false := by
-  unfold add weird
+    add node path apps additive level = (addC (comps path) node apps additive level, false) := by
+  unfold add
   exact addAux_eq_addC _ node path apps additive level (by omega) hok hnone
+
+/-! ### the fuel of `add` is never exhausted (all inputs, no validity hypothesis) -/
+
+theorem depth_mk (l : Nat) (a : List Nat) (cs : List (Name × Node)) : (Node.mk l a cs).depth = depthList cs := by
+  rw [Node.depth]
+
+theorem lookup_depth {cs : List (Name × Node)} {c : Name} {child : Node} (h : lookup c cs = some child) :
+    child.depth + 1 ≤ depthList cs := by
+  induction cs with
+  | nil => simp [lookup] at h
+  | cons e cs ih =>
+    obtain ⟨k, x⟩ := e
+    simp only [lookup] at h
+    simp only [depthList]
+    split at h
+    · cases h; omega
+    · have := ih h; omega
+
+theorem splitFirst_length (path : Name) :
+    (splitFirst path).2.length ≤ path.length ∧ ((splitFirst path).2 ≠ [] → (splitFirst path).2.length + 2 ≤ path.length) := by
+  rw [splitFirst_eq]
+  cases h : findSep path with
+  | none => simp
+  | some pr =>
+    obtain ⟨p, r⟩ := pr
+    have := (findSep_some h).2
+    simp only
+    exact ⟨by omega, fun _ => this⟩
+
+/-- any fuel at or above `path length + depth + 1` gives the same result as exactly that much: the `0` arm of
+`addAux` is never what `add` returns, whatever the tree and the path (valid or not) -/
+theorem addAux_fuel (f : Nat) (node : Node) (path : Name) (apps : List Nat) (additive : Bool) (level : Nat)
+    (hf : path.length + node.depth + 1 ≤ f) :
+    addAux f node path apps additive level =
+      addAux (path.length + node.depth + 1) node path apps additive level := by
+  induction f using Nat.strongRecOn generalizing node path with
+  | _ f ih =>
+    cases f with
+    | zero => omega
+    | succ f =>
+      obtain ⟨hl1, hl2⟩ := splitFirst_length path
+      cases node with
+      | mk nl na ncs =>
+      simp only [addAux, Node.children_mk, Node.level_mk, Node.apps_mk, depth_mk] at hf ⊢
+      cases hlk : lookup (splitFirst path).1 ncs with
+      | some child =>
+        have hd := lookup_depth hlk
+        simp only
+        rw [ih f (by omega) child _ (by omega),
+          ih (path.length + depthList ncs) (by omega) child _ (by omega)]
+      | none =>
+        simp only
+        by_cases he : (splitFirst path).2.isEmpty = true
+        · simp [he]
+        · have hne : (splitFirst path).2 ≠ [] := by simpa using he
+          have h2 := hl2 hne
+          simp only [he]
+          rw [ih f (by omega) (Node.mk nl na []) _ (by simp [depth_mk, depthList]; omega),
+            ih (path.length + depthList ncs) (by omega) (Node.mk nl na []) _
+              (by simp [depth_mk, depthList]; omega)]
 
 /-! ### `find` after an insertion -/
 
